@@ -345,6 +345,9 @@ func (a *Array) Push(what Object) Object {
 
 // Pop from array
 func (a *Array) Pop() Object {
+	if len(a.items) == 0 {
+		return Nil{}
+	}
 	last := a.items[len(a.items)-1]
 	a.items = a.items[:len(a.items)-1]
 	return last
